@@ -155,6 +155,13 @@ def check(ctx):
     c04.check(sub)
     ctx.obligations.extend(o for o in sub.obligations if o.rule.split(".", 1)[1].split(".")[0] in ("xml", "yaml", "wrapper", "dispatch"))
 
+    # "encrypted values included": the cipher pairs decided under C08 (XOR keystream over the whole data, AES direction /
+    # finalisation / IV agreement) are necessary for a secret to come back
+    from . import c08
+    sub = type(ctx)(ctx.pid, ctx.an, ctx.tier)
+    c08.check(sub)
+    ctx.obligations.extend(o for o in sub.obligations if o.rule.split(".", 1)[1].split(".")[0] in ("xor", "agree"))
+
     # ---------------------------------------------------------------- C02.4 to_tree contents
     g = an.cfg(to_tree)
     reach = reachable_from_entry(an, to_tree)
